@@ -17,23 +17,6 @@ Definition fsum (l : list F) : F := fold_left (fadd K) l (f0 K).
 (* Polynomial.Eval: Horner from the leading coefficient — model/Poly.v (C20) *)
 Definition poly_eval (cs : list F) (x : F) : F := peval K cs x.
 
-(* Degree(): index of the last non-zero coefficient; represented as 1 + degree (0 for the zero polynomial) *)
-Fixpoint degree1 (cs : list F) : nat :=
-  match cs with
-  | [] => O
-  | c :: t => match degree1 t with
-              | O => if fis0 K c then O else 1%nat
-              | S d => S (S d)
-              end
-  end.
-
-(* Derivative(): coefficient i ↦ i·c_i (ScalarMulNative); of a constant: the zero polynomial [0] *)
-Definition poly_deriv (cs : list F) : list F :=
-  match degree1 cs with
-  | O | S O => [f0 K]
-  | S (S d) => map (fun i => fmul K (fromN (N.of_nat i)) (nth i cs (f0 K))) (seq 1 (S d))
-  end.
-
 (* lagrange.BasisAt(xs, at): Π_{j≠i} (at - x_j) / (x_i - x_j); a zero denominator is an error — model/Interp.v (C20) *)
 Definition lagrange_basis_at (xs : list F) (at_ : F) : option (list F) := basis_at K xs at_.
 
@@ -145,49 +128,39 @@ Definition isn_to_additive (mus : list (list N)) (sh : isn_share) (quorum : list
 
 (* ---- Tassa (hierarchical, Birkhoff interpolation) --------------------------------------------------- *)
 
-Fixpoint iter_deriv (n : nat) (cs : list F) : list F :=
-  match n with O => cs | S k => poly_deriv (iter_deriv k cs) end.
-
-(* Deal: level with previous threshold d gets the d-th derivative evaluated at the ID *)
+(* Deal: a level whose previous threshold is d gets the d-th derivative (coded Derivative iterated
+   d times on a clone of the dealer polynomial: Poly.[pderiv_iter]) evaluated at the ID *)
 Definition tassa_deal (levels : list (nat * list N)) (cs : list F) : list fshare :=
   let fix go (d : nat) (ls : list (nat * list N)) : list fshare :=
     match ls with
     | [] => []
-    | (t, ps) :: rest => map (fun id => (id, poly_eval (iter_deriv d cs) (fromN id))) ps ++ go t rest
+    | (t, ps) :: rest => map (fun id => (id, peval K (pderiv_iter K d cs) (fromN id))) ps ++ go t rest
     end in
   go O levels.
 
-(* birkhoff square matrix for a quorum (rows in the order given) *)
-Definition birkhoff_matrix (levels : list (nat * list N)) (ids : list N) : option (matrix (F:=F)) :=
-  let n := length ids in
-  fold_right (fun id acc =>
-      match acc, hier_rank levels id with
-      | Some rows, Some j => Some (map (fun c => phi K fromN c (fromN id) j) (seq 0 n) :: rows)
-      | _, _ => None
-      end) (Some []) ids.
-
-(* Reconstruct: >= 2 shares, no repeated ID, quorum ⊆ shareholders and qualified; interpolate
-   (the code uses Cramer's rule on the node-sorted Birkhoff matrix and refuses a zero
-   determinant; here: [determinant] for the refusal and the linear solver for the
-   coefficients), the result must have degree = last threshold - 1; secret = constant term *)
-Definition tassa_reconstruct (levels : list (nat * list N)) (shares : list fshare) : option F :=
+(* Reconstruct: >= 2 shares, no repeated ID, quorum ⊆ shareholders and qualified; birkhoff.Interpolate
+   (Interp.[birkhoff_interpolate]: nodes sorted by the key [fkey] = the node as an integer, Cramer's rule,
+   zero determinant refused) on (node, rank, value); the result must have degree = last threshold - 1;
+   secret = constant term *)
+Definition tassa_reconstruct (fkey : F -> Z) (levels : list (nat * list N)) (shares : list fshare) : option F :=
   let ids := map fst shares in
   if Nat.ltb (length shares) 2 then None
   else if negb (Nat.eqb (length (nodupN ids)) (length ids)) then None
   else if negb (subsetb ids (flat_map snd levels) && is_qualified (Hier levels) ids) then None
   else
-    let sorted := sortN ids in
-    match birkhoff_matrix levels sorted with
+    match fold_right (fun id acc => match acc, hier_rank levels id with
+                                    | Some l, Some j => Some (N.of_nat j :: l)
+                                    | _, _ => None
+                                    end) (Some []) ids with
     | None => None
-    | Some B =>
-      if fis0 K (determinant K B) then None else
-      let ys := map (fun id => match find (fun s => N.eqb (fst s) id) shares with
-                               | Some s => snd s | None => f0 K end) sorted in
-      match solve_right K B ys with
-      | None => None
-      | Some cs =>
-        if Nat.eqb (degree1 cs) (fst (last levels (O, [])))
-        then Some (nth 0 cs (f0 K)) else None
+    | Some js =>
+      match birkhoff_interpolate K fkey (map fromN ids) js (map snd shares) with
+      | Err _ => None
+      | Ok cs =>
+        match pdegree K cs with
+        | Some d => if Nat.eqb (S d) (fst (last levels (O, []))) then Some (nth 0 cs (f0 K)) else None
+        | None => None
+        end
       end
     end.
 
